@@ -677,3 +677,534 @@ def cmc_entry_nonneg(repo, col):
                 True, "through compressed_morton_code" if through_core else
                 "", undecided=not through_core and not bypass and
                 not has_nonneg_guard(fn))
+
+
+# ---------------------------------------------------------------------
+def shift_beyond_width(repo, col, shorts):
+    """A 32-bit array shifted left by 32 or more is 0 (NumPy does not widen):
+    the halves of a 64-bit value are widened before they are combined."""
+    rule = "E-DTYPE.shift-width"
+    n = 0
+    W = {"<u4": 32, "u4": 32, "uint32": 32, "<I": 32, "I": 32, "<i4": 32,
+         "int32": 32, "<u2": 16, "uint16": 16, "<H": 16, "uint8": 8, "u1": 8,
+         "B": 8}
+    for ms in shorts:
+        try:
+            m = repo.module(ms)
+        except Exception:
+            continue
+        for fn in m.functions.values():
+            defs = local_defs(fn.node)
+
+            def width(e, depth=0):
+                """Bit width of an array expression when it is known."""
+                if isinstance(e, ast.Call):
+                    nm = (call_name(e) or "").split(".")[-1]
+                    if nm == "astype" and e.args:
+                        return W.get(norm(e.args[0]).strip("'\""),
+                                     64 if "8" in norm(e.args[0]) or
+                                     "64" in norm(e.args[0]) else None)
+                    if nm in ("frombuffer", "array", "asarray", "zeros",
+                              "empty"):
+                        d = kwarg(e, "dtype") or (e.args[1] if len(e.args) > 1
+                                                  else None)
+                        if d is not None:
+                            return W.get(norm(d).strip("'\""))
+                    return None
+                if isinstance(e, ast.Subscript):
+                    return width(e.value, depth)
+                if isinstance(e, ast.Name) and depth < 3:
+                    ws = {width(d.value, depth + 1)
+                          for d in defs.get(e.id, []) if d.value is not None}
+                    return ws.pop() if len(ws) == 1 else None
+                return None
+            for x in walk_local(fn.node):
+                if isinstance(x, ast.BinOp) and isinstance(x.op, ast.LShift):
+                    k = const_int(x.right)
+                    if k is None and isinstance(x.right, ast.Call) and \
+                            x.right.args:
+                        k = const_int(x.right.args[0])
+                    w = width(x.left)
+                    if k is not None and w is not None:
+                        n += 1
+                        col.add(rule, fn, norm(x)[:60], k < w, "" if k < w
+                                else "`%s` is a %d-bit array and is shifted "
+                                "left by %d: the result is 0, the upper half "
+                                "of the 64-bit value is lost"
+                                % (norm(x.left)[:40], w, k), node=x)
+    col.add(rule, "package", "%d shifts of arrays of known width" % n, True,
+            "", nontrivial=False)
+
+
+# ---------------------------------------------------------------------
+def temporary_state_used_after(repo, col, shorts):
+    """A context manager that changes attributes of the object it is given
+    and restores them in a `finally` makes the change valid only inside the
+    with-block: using that object (or an alias of it) after the block reads it
+    in its restored state - which matters for lazily evaluated objects such
+    as a nibabel array proxy."""
+    rule = "E-ORDER.temporary-state"
+    n = 0
+    for ms in shorts:
+        try:
+            m = repo.module(ms)
+        except Exception:
+            continue
+        temp_cms = {}
+        for f in m.functions.values():
+            if not any("contextmanager" in norm(d)
+                       for d in f.node.decorator_list):
+                continue
+            params = [p for p in f.params if p not in ("self", "cls")]
+            for tr in ast.walk(f.node):
+                if not (isinstance(tr, ast.Try) and tr.finalbody and any(
+                        isinstance(x, ast.Yield) for b in tr.body
+                        for x in ast.walk(b))):
+                    continue
+                restored = set()
+                for st in tr.finalbody:
+                    for x in ast.walk(st):
+                        if isinstance(x, ast.Attribute) and \
+                                isinstance(x.ctx, ast.Store) and \
+                                isinstance(x.value, ast.Name) and \
+                                x.value.id in params:
+                            restored.add(x.value.id)
+                        if isinstance(x, ast.Call):
+                            for a in x.args:
+                                if isinstance(a, ast.Name) and a.id in params:
+                                    restored.add(a.id)
+                for p in restored:
+                    temp_cms[f.qualname.split(".")[-1]] = (f, params.index(p))
+        if not temp_cms:
+            continue
+        for f in m.functions.values():
+            defs = local_defs(f.node)
+            for w in ast.walk(f.node):
+                if not isinstance(w, ast.With):
+                    continue
+                for it in w.items:
+                    c = it.context_expr
+                    if not (isinstance(c, ast.Call) and
+                            (call_name(c) or "").split(".")[-1] in temp_cms):
+                        continue
+                    cm, idx = temp_cms[(call_name(c) or "").split(".")[-1]]
+                    aliases = set()
+                    if idx < len(c.args) and isinstance(c.args[idx], ast.Name):
+                        aliases.add(c.args[idx].id)
+                    if isinstance(it.optional_vars, ast.Name):
+                        # `with cm(x.attr) as obj`: the managed object itself
+                        aliases.add(it.optional_vars.id)
+                    if not aliases:
+                        continue
+                    obj = sorted(aliases)[0]
+                    # names that may be the same object
+                    for name, ds in defs.items():
+                        if any(isinstance(d.value, ast.Name) and
+                               d.value.id in aliases for d in ds):
+                            aliases.add(name)
+                    inside = {id(x) for x in ast.walk(w)}
+                    end = getattr(w, "end_lineno", w.lineno)
+                    later = [x for x in walk_local(f.node)
+                             if isinstance(x, ast.Name) and x.id in aliases
+                             and isinstance(x.ctx, ast.Load) and
+                             id(x) not in inside and
+                             getattr(x, "lineno", 0) > end]
+                    n += 1
+                    col.add(rule, f, norm(c)[:60], not later, "" if not later
+                            else "`%s` changes `%s` only for the duration of "
+                            "the with-block (it is restored in a finally), "
+                            "but `%s` is still used after the block (line "
+                            "%d): whatever is read from it lazily then sees "
+                            "the restored state"
+                            % (norm(c)[:40], obj, later[0].id,
+                               later[0].lineno), node=later[0] if later else c)
+    col.add(rule, "package", "%d temporary-state context managers in use" % n,
+            True, "", nontrivial=False)
+
+
+# ---------------------------------------------------------------------
+def deferred_error_checked(repo, col, shorts):
+    """A worker that stashes an exception on the object (`self._error = exc`)
+    defers the failure to whoever looks at that attribute: the methods that
+    end the work (close, __exit__, join, flush) must look at it, or an error
+    on the last item is never reported."""
+    rule = "E-EXC.deferred"
+    n = 0
+    for ms in shorts:
+        try:
+            m = repo.module(ms)
+        except Exception:
+            continue
+        for cls in m.classes.values():
+            stash = set()
+            for f in cls.methods.values():
+                for h in ast.walk(f.node):
+                    if isinstance(h, ast.ExceptHandler) and h.name:
+                        for st in ast.walk(h):
+                            if isinstance(st, ast.Assign) and \
+                                    isinstance(st.value, ast.Name) and \
+                                    st.value.id == h.name:
+                                for t in st.targets:
+                                    if isinstance(t, ast.Attribute) and \
+                                            isinstance(t.value, ast.Name) and \
+                                            t.value.id == "self":
+                                        stash.add(t.attr)
+            if not stash:
+                continue
+            enders = [f for name, f in cls.methods.items()
+                      if name in ("close", "__exit__", "join", "finish",
+                                  "flush", "shutdown", "wait")]
+            for f in enders:
+                # __exit__ that only calls close() is covered by close()
+                txt = " ".join(norm(h.node) for h in helper_closure(f, 2))
+                for a in sorted(stash):
+                    n += 1
+                    ok = ("self.%s" % a) in txt
+                    col.add(rule, f, "self.%s examined" % a, ok, "" if ok else
+                            "%s stores a worker's exception in self.%s, but "
+                            "%s ends the work without looking at it: a "
+                            "failure of the last submitted item is swallowed"
+                            % (cls.name, a, f.qualname), node=f.node)
+    col.add(rule, "package", "%d end-of-work methods of classes that defer "
+            "errors" % n, True, "", nontrivial=False)
+
+
+# ---------------------------------------------------------------------
+def _helper_reduction(h, e):
+    """e (in helper h) is an array reduction that was not converted to a
+    Python number."""
+    hd = local_defs(h.node)
+    if isinstance(e, ast.Call):
+        nm = (call_name(e) or "").split(".")[-1]
+        if nm in ("item", "int", "float", "tolist"):
+            return False
+        return nm in ("min", "max", "amin", "amax", "nanmin", "nanmax") and \
+            isinstance(e.func, ast.Attribute)
+    if isinstance(e, ast.Name):
+        ds = [d for d in hd.get(e.id, []) if d.value is not None]
+        return bool(ds) and all(_helper_reduction(h, d.value) for d in ds)
+    return False
+
+
+def numpy_scalar_vs_int_bound(repo, col, shorts=("data_types",)):
+    """`chunk.max() <= np.iinfo(t).max`: the reduction is a NumPy scalar of the
+    chunk's dtype and NumPy converts the Python-int bound to that dtype before
+    comparing - float32(4294967295) is 4294967296.0, so a value one above the
+    limit passes.  The extrema are converted with .item() / int() / float()
+    (or the bound is compared in a wider type)."""
+    rule = "E-DTYPE.scalar-compare"
+    n = 0
+    for ms in shorts:
+        try:
+            m = repo.module(ms)
+        except Exception:
+            continue
+        for f in m.functions.values():
+            defs = local_defs(f.node)
+
+            def is_reduction(e, depth=0):
+                if isinstance(e, ast.Call):
+                    nm = (call_name(e) or "").split(".")[-1]
+                    if nm in ("item", "int", "float", "tolist"):
+                        return False
+                    if nm in ("min", "max", "amin", "amax", "nanmin",
+                              "nanmax") and (
+                                  isinstance(e.func, ast.Attribute)):
+                        return not (isinstance(e.func.value, ast.Name) and
+                                    e.func.value.id in ("builtins",))
+                    return False
+                if isinstance(e, ast.Name) and depth < 3:
+                    ds = [d for d in defs.get(e.id, []) if d.value is not None]
+                    if ds and all(d.kind == "assign" for d in ds):
+                        vals = []
+                        for d in ds:
+                            v = d.value
+                            if d.index is not None and isinstance(
+                                    v, (ast.Tuple, ast.List)) and \
+                                    d.index < len(v.elts):
+                                v = v.elts[d.index]
+                            if isinstance(v, ast.Call):
+                                h = resolve_local_call(f, v)
+                                if h is not None and h is not f:
+                                    # lo, hi = _value_range(chunk)
+                                    rv = []
+                                    for r in stmts_of(h.node):
+                                        if isinstance(r, ast.Return) and \
+                                                r.value is not None:
+                                            x_ = r.value
+                                            if d.index is not None and \
+                                                    isinstance(x_, (ast.Tuple,
+                                                                    ast.List)) \
+                                                    and d.index < len(x_.elts):
+                                                x_ = x_.elts[d.index]
+                                            if isinstance(x_, ast.Constant):
+                                                continue    # (None, None)
+                                            rv.append(_helper_reduction(h, x_))
+                                    vals.append(bool(rv) and all(rv))
+                                    continue
+                            vals.append(is_reduction(v, depth + 1))
+                        return all(vals)
+                    # a parameter that callers fill with a reduction
+                    if any(d.kind == "param" for d in defs.get(e.id, [])):
+                        for g in m.functions.values():
+                            for c in calls_in(g.node):
+                                if resolve_local_call(g, c) is f:
+                                    ps = [p for p in f.params
+                                          if p not in ("self", "cls")]
+                                    if e.id in ps and \
+                                            ps.index(e.id) < len(c.args):
+                                        a = c.args[ps.index(e.id)]
+                                        gd = local_defs(g.node)
+                                        if isinstance(a, ast.Call) and \
+                                                (call_name(a) or "").split(
+                                                    ".")[-1] in ("min", "max"):
+                                            return True
+                                        if isinstance(a, ast.Name) and any(
+                                                isinstance(d.value, ast.Call)
+                                                and (call_name(d.value) or ""
+                                                     ).split(".")[-1] in (
+                                                         "min", "max")
+                                                for d in gd.get(a.id, [])):
+                                            return True
+                return False
+
+            def is_int_bound(e, depth=0):
+                t = norm(e)
+                if "iinfo(" in t:
+                    return True
+                if isinstance(e, ast.Name) and depth < 3 and any(
+                        d.kind == "param" for d in defs.get(e.id, [])):
+                    # a bound handed in by the callers
+                    for g in m.functions.values():
+                        for c in calls_in(g.node):
+                            if resolve_local_call(g, c) is not f:
+                                continue
+                            ps = [p for p in f.params
+                                  if p not in ("self", "cls")]
+                            if e.id in ps and ps.index(e.id) < len(c.args):
+                                a = c.args[ps.index(e.id)]
+                                scopes = [g]
+                                while scopes[-1].parent is not None:
+                                    scopes.append(scopes[-1].parent)
+                                for sc in scopes:
+                                    for d in local_defs(sc.node).get(
+                                            a.id if isinstance(a, ast.Name)
+                                            else "", []):
+                                        if d.value is not None and \
+                                                "iinfo(" in norm(d.value):
+                                            return True
+                                if "iinfo(" in norm(a):
+                                    return True
+                if isinstance(e, ast.Name) and depth < 3:
+                    if any(d.value is not None and
+                           is_int_bound(d.value, depth + 1)
+                           for d in defs.get(e.id, [])):
+                        return True
+                    # closure variable of the enclosing function
+                    g = f.parent
+                    while g is not None:
+                        if any(d.value is not None and
+                               "iinfo(" in norm(d.value)
+                               for d in local_defs(g.node).get(e.id, [])):
+                            return True
+                        g = g.parent
+                return False
+            for x in walk_local(f.node):
+                if isinstance(x, ast.Compare) and len(x.ops) >= 1:
+                    sides = [x.left] + list(x.comparators)
+                    for a, b in zip(sides, sides[1:]):
+                        for u, v in ((a, b), (b, a)):
+                            if is_reduction(u) and is_int_bound(v):
+                                n += 1
+                                col.add(rule, f, norm(x)[:70], False,
+                                        "`%s` is a NumPy scalar of the "
+                                        "array's dtype; compared with the "
+                                        "integer limit `%s` NumPy first "
+                                        "converts the limit to that dtype "
+                                        "(float32(2**32-1) == 2**32), so a "
+                                        "value just beyond the limit counts "
+                                        "as in range" % (norm(u)[:30],
+                                                         norm(v)[:30]),
+                                        node=x)
+    col.add(rule, "package", "%d comparisons of array extrema with integer "
+            "limits" % n, True, "", nontrivial=False)
+
+
+# ---------------------------------------------------------------------
+def module_table_mutated(repo, col, shorts):
+    """A module-level table that is written with its entries (defaults,
+    registries) is shared by every call: a function that stores into it (or
+    into a local that is the table itself, not a copy) changes the defaults
+    of the whole process."""
+    rule = "E-STATE.module-table"
+    n = 0
+    for ms in shorts:
+        try:
+            m = repo.module(ms)
+        except Exception:
+            continue
+        tables = {name for name, v in m.constants.items()
+                  if (isinstance(v, ast.Dict) and v.keys) or
+                  (isinstance(v, (ast.List, ast.Set)) and v.elts)}
+        if not tables:
+            continue
+        for f in m.functions.values():
+            defs = local_defs(f.node)
+            aliases = {}
+            for name, ds in defs.items():
+                real = [d for d in ds if d.kind != "param"]
+                if real and all(isinstance(d.value, ast.Name) and
+                                d.value.id in tables and d.kind == "assign"
+                                and d.index is None for d in real):
+                    aliases[name] = real[0].value.id
+            for t in tables:
+                if t not in defs:
+                    aliases[t] = t
+            for x in walk_local(f.node):
+                tgt = None
+                if isinstance(x, (ast.Assign, ast.AugAssign)):
+                    tg = x.targets if isinstance(x, ast.Assign) else [x.target]
+                    for t_ in tg:
+                        if isinstance(t_, ast.Subscript) and \
+                                isinstance(t_.value, ast.Name) and \
+                                t_.value.id in aliases:
+                            tgt = t_.value.id
+                if isinstance(x, ast.Call) and \
+                        isinstance(x.func, ast.Attribute) and \
+                        x.func.attr in ("update", "setdefault", "pop", "clear",
+                                        "append", "extend", "add", "remove",
+                                        "insert", "popitem") and \
+                        isinstance(x.func.value, ast.Name) and \
+                        x.func.value.id in aliases:
+                    tgt = x.func.value.id
+                if tgt is not None:
+                    n += 1
+                    col.add(rule, f, norm(x)[:60], False,
+                            "`%s` is the module-level table `%s` itself (no "
+                            "copy was made): this store changes it for every "
+                            "later call in the process"
+                            % (tgt, aliases[tgt]), node=x)
+    col.add(rule, "package", "%d stores into module-level tables" % n, True,
+            "", nontrivial=False)
+
+
+# ---------------------------------------------------------------------
+def vacuous_all_in_predicate(repo, col):
+    """info_is_sharded: `all(...)` is true for an empty list; a dataset
+    without scales (a mesh directory) is not a sharded volume."""
+    rule = "E-SIB.dispatch.nonempty"
+    fn = repo.func("sharded_base", "ShardedAccessorBase.info_is_sharded")
+    rets = [r.value for f in helper_closure(fn, 1) for r in stmts_of(f.node)
+            if isinstance(r, ast.Return) and r.value is not None]
+    alls = [x for v in rets for x in ast.walk(v) if isinstance(x, ast.Call)
+            and (call_name(x) or "") in ("all", "np.all", "numpy.all")]
+    if not alls:
+        col.add(rule, fn, "all(...) over the scales", True,
+                "predicate not in the recognised form", undecided=True)
+        return
+    txt = " ".join(norm(f.node) for f in helper_closure(fn, 1))
+    nonempty = "len(" in txt or any(
+        isinstance(v, ast.BoolOp) and isinstance(v.op, ast.And) and any(
+            isinstance(x, ast.Name) for x in v.values) for v in rets) or \
+        "bool(" in txt and "and" in txt or " > 0" in txt or "!= []" in txt
+    col.add(rule, fn, norm(alls[0])[:60], nonempty, "" if nonempty else
+            "`%s` is also true when there are no scales at all: an info "
+            "without scales is then taken for a sharded dataset and "
+            "dispatched to the sharded accessor" % norm(alls[0])[:40],
+            node=alls[0])
+
+
+# ---------------------------------------------------------------------
+def param_reordered_in_place(repo, col, shorts):
+    """`.reverse()` / `.sort()` on a list that was passed in (or on an element
+    of one) re-orders the caller's list."""
+    rule = "E-OWN.param-reorder"
+    n = 0
+    for ms in shorts:
+        try:
+            m = repo.module(ms)
+        except Exception:
+            continue
+        for f in m.functions.values():
+            params = set(f.params) - {"self", "cls"}
+            if not params:
+                continue
+            defs = local_defs(f.node)
+
+            def from_param(name, depth=0):
+                """Parameter the name is (an element of) without a copy."""
+                if name in params and all(
+                        d.kind == "param" for d in defs.get(name, [])):
+                    return name
+                if depth > 3:
+                    return None
+                for d in defs.get(name, []):
+                    v = d.value
+                    if v is None:
+                        continue
+                    if d.elem and isinstance(v, ast.Name):
+                        p = from_param(v.id, depth + 1)
+                        if p:
+                            return p
+                    if isinstance(v, ast.Name) and not d.elem:
+                        p = from_param(v.id, depth + 1)
+                        if p:
+                            return p
+                    if isinstance(v, (ast.ListComp, ast.GeneratorExp)) and \
+                            not d.elem and len(v.generators) == 1 and \
+                            isinstance(v.generators[0].target, ast.Name) and \
+                            isinstance(v.generators[0].iter, ast.Name):
+                        # [x if keep(x) else copy(x) for x in src]: some
+                        # elements are the caller's own objects
+                        tv = v.generators[0].target.id
+                        branches = [v.elt]
+                        if isinstance(v.elt, ast.IfExp):
+                            branches = [v.elt.body, v.elt.orelse]
+                        if any(isinstance(b, ast.Name) and b.id == tv
+                               for b in branches):
+                            src = v.generators[0].iter.id
+                            if src == name and src in params:
+                                return src
+                            p = from_param(src, depth + 1)
+                            if p:
+                                return p
+                    if isinstance(v, ast.Call) and not d.elem:
+                        # a helper that hands its argument back unchanged
+                        h = resolve_local_call(f, v)
+                        if h is not None and h is not f:
+                            hp = [q for q in h.params
+                                  if q not in ("self", "cls")]
+                            for r in stmts_of(h.node):
+                                if isinstance(r, ast.Return) and \
+                                        r.value is not None:
+                                    rv = r.value
+                                    # [x if isinstance(x, list) else list(x)]
+                                    for y in ast.walk(rv):
+                                        if isinstance(y, ast.Name) and \
+                                                y.id in hp and \
+                                                hp.index(y.id) < len(v.args) \
+                                                and isinstance(
+                                                    v.args[hp.index(y.id)],
+                                                    ast.Name) and not \
+                                                isinstance(rv, ast.Call):
+                                            an = v.args[hp.index(y.id)].id
+                                            if an == name and an in params:
+                                                return an
+                                            p = from_param(an, depth + 1)
+                                            if p:
+                                                return p
+                return None
+            for c in calls_in(f.node):
+                if isinstance(c.func, ast.Attribute) and \
+                        c.func.attr in ("reverse", "sort") and \
+                        isinstance(c.func.value, ast.Name) and not c.args:
+                    p = from_param(c.func.value.id)
+                    n += 1
+                    col.add(rule, f, norm(c)[:50], p is None, "" if p is None
+                            else "`%s` re-orders in place a list that comes "
+                            "from the parameter `%s` without a copy: the "
+                            "caller's list is changed, and a second use of "
+                            "it (another channel, a later call) sees the "
+                            "new order" % (norm(c)[:30], p), node=c)
+    col.add(rule, "package", "%d in-place re-orderings" % n, True, "",
+            nontrivial=False)
